@@ -571,7 +571,7 @@ func (n *normalizer) inlineRecord(fd *ast.FuncDecl, as *ast.AssignStmt, x types.
 			return true
 		}
 		// a method of the record: T must have a wrapper `return recv.h().meth(…)`
-		if wfd := p.method(par.Sel.Name); wfd != nil && wfd.Body != nil && (len(wfd.Body.List) == 1 || len(wfd.Body.List) == 2) {
+		if wfd := p.method(par.Sel.Name); wfd != nil && wfd != fd && wfd.Body != nil && (len(wfd.Body.List) == 1 || len(wfd.Body.List) == 2) {
 			// `return recv.h().meth(…)` or `v := recv.h(); return v.meth(…)`
 			var viaVar types.Object
 			if len(wfd.Body.List) == 2 {
